@@ -3197,7 +3197,15 @@ func (s *Store) snapshotDueNext() (snapshot.Type, error) {
 	if err != nil {
 		return snapshot.Full, err
 	}
-	if dueNext == snapshot.Full || s.dbModified() {
+	if dueNext == snapshot.Full {
+		return snapshot.Full, nil
+	}
+	if s.dbModified() {
+		// Make the requirement durable: it must survive a full snapshot which fails or
+		// is never persisted (only a successfully closed sink clears the flag).
+		if err := s.snapshotStore.SetDueNext(snapshot.Full); err != nil {
+			return snapshot.Full, err
+		}
 		return snapshot.Full, nil
 	}
 	return snapshot.Incremental, nil
